@@ -647,6 +647,38 @@ struct Mon {
       }
     }
   }
+  // Every year of a contiguous block, with the oracle advanced incrementally (365 + leap days per year): the weekday of
+  // 1 January and 1 March, the ordinals of 1 March and 31 December, and the two weekday searches across the end of
+  // February. Lean on purpose (six library calls per year) so that whole integer-width ranges of years can be swept.
+  void c17_year_block(int64_t y0, int64_t n) {
+    int w = orc::weekday_of_days(orc::days_from_civil(y0, 1, 1));  // weekday of 1 January, advanced by 365 + leap per year
+    long bad = 0;
+    for (int64_t i = 0; i < n; ++i) {
+      int64_t y = y0 + i;
+      int lp = (y % 4 == 0 && (y % 100 != 0 || y % 400 == 0)) ? 1 : 0;
+      int w_jan1 = w, w_mar1 = (w + 59 + lp) % 7, w_feb28 = (w + 58) % 7;
+      cctz::civil_day jan1(y, 1, 1), mar1(y, 3, 1), dec31(y, 12, 31), feb28(y, 2, 28);
+      bool ok = wd_index(cctz::get_weekday(jan1)) == w_jan1 && wd_index(cctz::get_weekday(mar1)) == w_mar1 &&
+                cctz::get_yearday(mar1) == 60 + lp && cctz::get_yearday(dec31) == 365 + lp &&
+                cctz::next_weekday(feb28, wd_from(w_mar1)) == mar1 && cctz::prev_weekday(mar1, wd_from(w_feb28)) == feb28;
+      if (!ok && bad++ < 3) {
+        ctx.set_case("class=year-sweep year=%s", S(y).c_str());
+        ctx.viol("C17", "year-sweep", "year " + S(y) + ": weekday(Jan 1)=" + std::to_string(wd_index(cctz::get_weekday(jan1))) + "/" + std::to_string(w_jan1) +
+                                          " weekday(Mar 1)=" + std::to_string(wd_index(cctz::get_weekday(mar1))) + "/" + std::to_string(w_mar1) +
+                                          " yearday(Mar 1)=" + std::to_string(cctz::get_yearday(mar1)) + "/" + std::to_string(60 + lp) +
+                                          " yearday(Dec 31)=" + std::to_string(cctz::get_yearday(dec31)) + "/" + std::to_string(365 + lp) + " (got/expected)");
+      }
+      w = (w + 365 + lp) % 7;
+    }
+    // the incremental weekday must agree with the closed-form oracle at the end of the block
+    if (w != orc::weekday_of_days(orc::days_from_civil((i128)y0 + n, 1, 1))) {
+      fprintf(stderr, "harness: incremental weekday oracle disagrees with O-CAL at year %s\n", S((i128)y0 + n).c_str());
+      abort();
+    }
+    ctx.stat("C17.evaluations", 6 * n);
+    ctx.stat("C17.year_sweep_years", n);
+    ctx.stat("C17.distinct_nontrivial", n);
+  }
 };
 
 // cycle positions: year offsets 400*k
@@ -721,7 +753,16 @@ int main(int argc, char** argv) {
   long total_random = a.getl("random", thorough ? 30000000 : 1500000);
   if (prop == "C17") total_random = thorough ? 2000000 : 200000;
   long nrand = (total_random + chunk - 1) / chunk;
-  long ncases = ncycle + nrand;
+  // C17 year sweep: every year in [-2^30, 2^30) (thorough: [-2^32, 2^32), i.e. every year a 32-bit integer of either
+  // signedness can hold), in blocks of 2^22 years
+  const int64_t kBlock = int64_t{1} << 22;
+  int64_t sweep_lo = thorough ? -(int64_t{1} << 32) : -(int64_t{1} << 30);
+  // --leg main: everything but the sweep (sanitizer build); --leg sweep: the sweep alone (optimised build, the sweep
+  // is arithmetic on header-only code and needs speed, not shadow memory); --leg all: both
+  std::string leg = a.get("leg", "all");
+  long nsweep = (prop == "C17" && leg != "main") ? static_cast<long>((-2 * sweep_lo) / kBlock) : 0;
+  if (leg == "sweep") ncycle = 0, nrand = 0;
+  long ncases = ncycle + nrand + nsweep;
   return sup::supervise(ncases, opt, [&](long c, sup::Ctx& ctx) {
     Mon m(ctx, seed, static_cast<uint64_t>(c));
     if (c < ncycle) {
@@ -776,6 +817,8 @@ int main(int argc, char** argv) {
         }
       }
       if (prop == "C17") m.nt.clear(), ctx.stat("C17.distinct_nontrivial", orc::leap(y) ? 366 : 365);
+    } else if (c >= ncycle + nrand) {
+      m.c17_year_block(sweep_lo + (c - ncycle - nrand) * kBlock, kBlock);
     } else {
       if (prop == "C04") {
         if (c == ncycle) c04_constexpr_panel(ctx);
@@ -813,7 +856,7 @@ int main(int argc, char** argv) {
       }
     }
     if (prop != "C17") ctx.stat(prop + ".distinct_nontrivial", m.nt.size());
-    if (c % 97 == 0) {
+    if (c % 97 == 0 && leg != "sweep") {
       if (prop == "C04") {
         cctz::civil_second s(2001, 14, -366, 25, -61, 3661);
         ctx.sample("C04", "civil_second(2001,14,-366,25,-61,3661) -> " + orc::str(get(s)) + " oracle " +
